@@ -218,6 +218,9 @@ class Check:
         shutil.rmtree(self.work, ignore_errors=True)
         scratch = bool(os.environ.get("VERIF_NO_EVIDENCE"))
         evdir = os.path.join(ROOT, ".work", "scratch-evidence") if scratch else os.path.join(ROOT, "evidence")
+        extra = self.pid.startswith("X")       # extra specifications (not listed properties): evidence under notes/extra
+        if extra and not scratch:
+            evdir = os.path.join(ROOT, "notes", "extra")
         os.makedirs(evdir, exist_ok=True)
         cov = {"states": self.states, "transitions": self.transitions,
                "traces_validated_against_impl": self.replayed,
@@ -255,7 +258,7 @@ class Check:
                 path = os.path.join(rpdir, h + ".json")
                 with open(path, "w") as f:
                     json.dump(rep, f, indent=1, default=str)
-                print("VIOLATION property=%s replay=%s clause=%s" % (self.pid, path, clause))
+                print("%s=%s replay=%s clause=%s" % ("EXTRA-SPEC-REJECTED spec" if extra else "VIOLATION property", self.pid, path, clause))
                 if len(seen) >= 8:
                     break
             print("%s: %d violation(s) [%s tier, %.1fs]" % (self.pid, len(self.violations), self.tier, wall))
